@@ -4,8 +4,8 @@
 set -e
 cd "$(dirname "$0")"
 mkdir -p build/run build/replay evidence
-for t in tools/gen_consts.py tools/gen_tables.py tools/gen_census.py; do
-  [ -f "$t" ] && python3 "$t"
+for t in $(cat tools/TRANSLATORS 2>/dev/null); do
+  python3 "tools/$t"
 done
 cd coq
 coq_makefile -f _CoqProject -o Makefile >/dev/null
